@@ -15,6 +15,7 @@ import Upa.Impl.BoundsUrl
 import Upa.Impl.BoundsMisc
 import Upa.Impl.SimpleBuffer
 import Upa.Impl.StrView
+import Upa.Impl.RemoveIf
 /-
   Line-protocol driver: executes an operation file on the models (`Impl`, and `Spec` where the
   Standard has an answer) and prints one canonical line per operation: `<impl answer> ## <spec answer>`.
@@ -51,6 +52,15 @@ def parseHexNat (s : String) : Nat := s.toList.foldl (fun acc c => acc * 16 + he
 /-- "68,74,74" → [0x68,0x74,0x74]; "-" → [] -/
 def parseUnits (s : String) : List Nat :=
   if s == "-" then [] else (s.splitOn ",").map parseHexNat
+/-- the user predicates of the `removeif` operation (harness/driver.cpp `user_pred`), over the stored bytes -/
+def userPred (kind : String) (k : Nat) (x : List Nat × List Nat) : Bool :=
+  match kind with
+  | "vlen" => x.2.length == k
+  | "nlenle" => decide (x.1.length ≤ k)
+  | "vfirst" => x.2.head? == some k
+  | "nlast" => x.1.getLast? == some k
+  | _ => false
+
 def parseEnc (s : String) : Enc := if s == "16" then .u16 else if s == "32" then .u32 else .u8
 
 def pairsStr (l : List (List Nat × List Nat)) : String :=
@@ -350,6 +360,11 @@ def exec (idna : Idna) (st : St) (toks : List String) : St × String :=
       | "del2" => (p.del2 (arg 0) (arg 1), "-", specDump (Spec.spDelete2 (specList p) (sarg 0) (sarg 1)))
       | "remove" => let q := p.del (arg 0); (q, toString (p.list.length - q.list.length), specDump (Spec.spDelete (specList p) (sarg 0)))
       | "remove2" => let q := p.del2 (arg 0) (arg 1); (q, toString (p.list.length - q.list.length), specDump (Spec.spDelete2 (specList p) (sarg 0) (sarg 1)))
+      | "removeif" =>   -- remove_if with a user predicate (Impl/RemoveIf.lean, Props/C16b)
+        let pr := userPred (args.getD 0 "-") (args.getD 1 "0").toNat!
+        let q := p.removeIf pr
+        (q.params, toString q.count,
+          specDump ((specList p).filter fun (n, v) => !pr (Spec.utf8Encode n, Spec.utf8Encode v)))
       | "has" => (p, b01 (p.has (arg 0)), "r=" ++ b01 (Spec.spHas (specList p) (sarg 0)) ++ " " ++ specDump (specList p))
       | "has2" => (p, b01 (p.has2 (arg 0) (arg 1)), "r=" ++ b01 (Spec.spHas2 (specList p) (sarg 0) (sarg 1)) ++ " " ++ specDump (specList p))
       | "getv" => (p, optBytes (p.get (arg 0)), "r=" ++ optBytes ((Spec.spGet (specList p) (sarg 0)).map Spec.utf8Encode) ++ " " ++ specDump (specList p))
